@@ -325,6 +325,8 @@ MODELS = {
 def run(report, tier: str, seed: int, prop: str) -> dict:
     stats = {"states": 0, "sequences": 0, "actions": 0}
     for cfg, tmo in MODELS[tier]:
+        if cfg == "SchedCacheReady.cfg" and prop != "C10":
+            continue  # the 13-million-state configuration is explored once, by the check of C10
         rc, out, secs = tlc.run_tlc("SchedCache.tla", cfg, workers=8, timeout=tmo)
         m = re.search(r"(\d+) states generated, (\d+) distinct states found", out)
         if "No error has been found" not in out:
